@@ -441,6 +441,338 @@ Section PROOFS.
         * rewrite !outcome_crashed; auto.
         * rewrite !outcome_failed; auto.
   Qed.
+  (* ============================================================================================ *)
+  (* engines_agree: the in-process chain against the reference semantics, stage by stage           *)
+  Notation erase := (erase V).
+  Notation run_chain := (run_chain V v0 v1 vadd vdiv vltb vleb veqb vofZ panic_kills fpf re_match pfloat parse tmpl).
+  Notation sem_stage := (sem_stage V v0 v1 vadd vdiv vltb vleb veqb vofZ fpf re_match pfloat parse tmpl).
+  Notation sem_chain := (sem_chain V v0 v1 vadd vdiv vltb vleb veqb vofZ fpf re_match pfloat parse tmpl).
+
+  Lemma limit_agrees c bs : 0 <= c_limit c ->
+    List.concat (run_stage c (SLimit V) bs) = sem_limit V (c_limit c) (List.concat bs).
+  Proof.
+    intros H. cbn [InternalEngine.run_stage]. unfold sem_limit.
+    destruct (Z.eqb_spec (c_limit c) 0) as [E|E].
+    - rewrite E. now rewrite wrap_limit_zero.
+    - rewrite (wrap_limit_pos (c_limit c)) by lia. now rewrite Z.sub_0_r.
+  Qed.
+
+  Definition good (e : entry) : Prop := data_row V e.
+  Notation nondata := (terminator V).
+
+  Definition sim (l r : list entry) : Prop :=
+    exists d t, l = d ++ t /\ Forall good d /\ Forall nondata t /\ map erase d = map erase r.
+
+  Definition compat (G H : entry -> list entry) : Prop :=
+    forall e e', erase e = erase e' ->
+      (good e -> map erase (G e) = map erase (H e') /\ Forall good (G e)) /\ (nondata e -> Forall nondata (G e)).
+
+  Lemma Forall_flat_map {A} (P : A -> Prop) (G : A -> list A) (Q : A -> Prop) :
+    (forall x, Q x -> Forall P (G x)) -> forall l, Forall Q l -> Forall P (flat_map G l).
+  Proof.
+    intros H. induction l as [|x r IH]; intros HQ; cbn [flat_map]; [constructor|].
+    inversion HQ; subst. apply Forall_app. split; [now apply H|now apply IH].
+  Qed.
+
+  Lemma sim_flat_map G H l r : compat G H -> sim l r -> sim (flat_map G l) (flat_map H r).
+  Proof.
+    intros C [d [t [-> [Hd [Ht He]]]]]. exists (flat_map G d), (flat_map G t).
+    split; [apply flat_map_app|]. split; [|split].
+    - apply (Forall_flat_map good G good); [|exact Hd]. intros x Hx. exact (proj2 (proj1 (C x x eq_refl) Hx)).
+    - apply (Forall_flat_map nondata G nondata); [|exact Ht]. intros x Hx. exact (proj2 (C x x eq_refl) Hx).
+    - clear Ht t. revert r He. induction d as [|e d' IH]; intros [|e' r'] He; cbn [map] in He; try discriminate; [reflexivity|].
+      assert (H1 : erase e = erase e') by congruence. assert (H2 : map erase d' = map erase r') by congruence.
+      inversion Hd as [|? ? Hg Hd']; subst. cbn [flat_map]. rewrite !map_app.
+      rewrite (proj1 (proj1 (C e e' H1) Hg)). f_equal. now apply IH.
+  Qed.
+
+  (* ---- the three shapes as flat_map ---- *)
+  Lemma filter_flat_map {A} (p : A -> bool) (l : list A) : filter p l = flat_map (fun e => if p e then [e] else []) l.
+  Proof. induction l as [|x r IH]; cbn; [reflexivity|]. destruct (p x); cbn; now rewrite IH. Qed.
+  Lemma map_flat_map {A B} (g : A -> B) (l : list A) : map g l = flat_map (fun e => [g e]) l.
+  Proof. induction l as [|x r IH]; cbn; [reflexivity|]. now rewrite IH. Qed.
+
+  Lemma erase_fields e e' : erase e = erase e' ->
+    e_ts V e = e_ts V e' /\ e_lbl V e = e_lbl V e' /\ e_msg V e = e_msg V e' /\ e_val V e = e_val V e' /\ e_err V e = e_err V e'.
+  Proof. unfold InternalEngine.erase. intros H. inversion H. auto. Qed.
+
+  Lemma compat_filter (keep : entry -> bool) :
+    (forall e e', erase e = erase e' -> keep e = keep e') ->
+    compat (fun e => if keep e then [e] else []) (fun e => if keep e then [e] else []).
+  Proof.
+    intros Hk e e' He. rewrite <- (Hk e e' He). split.
+    - intros Hg. destruct (keep e); cbn [map]; [|split; [reflexivity|constructor]].
+      split; [now rewrite He|]. constructor; [exact Hg|constructor].
+    - intros Hn. destruct (keep e); [constructor; [exact Hn|constructor]|constructor].
+  Qed.
+
+  Lemma compat_map (g h : entry -> entry) :
+    (forall e e', erase e = erase e' -> good e -> erase (g e) = erase (h e') /\ good (g e)) ->
+    (forall e, e_err V (g e) = e_err V e) ->
+    compat (fun e => [g e]) (fun e => [h e]).
+  Proof.
+    intros Hgh Herr e e' He. split.
+    - intros Hg. destruct (Hgh e e' He Hg) as [H1 H2]. cbn [map]. split; [now rewrite H1|]. constructor; [exact H2|constructor].
+    - intros [Hn1 Hn2]. constructor; [|constructor]. unfold nondata. now rewrite Herr.
+  Qed.
+
+  Lemma errk_eqb_none k : k <> ENone -> errk_eqb k ENone = false.
+  Proof. destruct k; intros H; try reflexivity. contradiction. Qed.
+
+  Lemma filter_length_eq {A} (p : A -> bool) (l : list A) : List.length (filter p l) = List.length l -> filter p l = l.
+  Proof.
+    induction l as [|x r IH]; cbn; [reflexivity|]. destruct (p x); cbn.
+    - intros H. f_equal. apply IH. lia.
+    - intros H. exfalso. assert (Hle : (List.length (filter p r) <= List.length r)%nat).
+      { clear. induction r as [|y r' IHr]; cbn; [lia|]. destruct (p y); cbn; lia. }
+      lia.
+  Qed.
+
+  Lemma lfmt_fold_eq fs : forall m, fold_left lfmt_apply fs m = fold_left sem_lfmt fs m.
+  Proof.
+    induction fs as [|f r IH]; intros m; cbn [fold_left]; [reflexivity|]. rewrite IH.
+    replace (lfmt_apply m f) with (sem_lfmt m f); [reflexivity|]. destruct f; reflexivity.
+  Qed.
+
+  (* ---- per stage: model output and reference as flat_map of compatible functions ---- *)
+  Definition G_of (c : ctx) (s : stage V) : entry -> list entry :=
+    match s with
+    | SLineFilter _ op val => fun e => if line_keep V re_match op val e then [e] else []
+    | SLabelFilter _ f => fun e => if lfilter_eval V vltb vleb veqb re_match pfloat f (e_lbl V e) then [e] else []
+    | SComparison _ op val => fun e => if comparison_keep V vltb vleb veqb op val e then [e] else []
+    | SLabelFormat _ fs => fun e => [label_format_g fs e]
+    | SUnwrap _ label => fun e => [unwrap_g label e]
+    | SDrop _ names vals => fun e => [drop_g names vals e]
+    | SByWithout _ by_ names => fun e => [by_without_g by_ names e]
+    | SLineFormat _ id => lf_one id
+    | _ => fun e => [e]
+    end.
+
+  Definition flat_stage (s : stage V) : bool :=
+    match s with SLimit _ => false | _ => simple_stage V s end.
+
+  Lemma run_stage_flat c s bs : flat_stage s = true ->
+    List.concat (run_stage c s bs) = flat_map (G_of c s) (List.concat bs).
+  Proof.
+    destruct s; cbn [flat_stage simple_stage]; try discriminate; intros _; cbn [InternalEngine.run_stage G_of].
+    - rewrite wrap_filter, concat_map_filter. apply filter_flat_map.
+    - rewrite wrap_filter, concat_map_filter. apply filter_flat_map.
+    - rewrite (wrap_map_total _ _ (label_format_total fs)), concat_map_map. apply map_flat_map.
+    - rewrite wrap_line_format. apply concat_map_flat_map.
+    - rewrite (wrap_map_total _ _ (unwrap_total label)), concat_map_map. apply map_flat_map.
+    - rewrite (wrap_map_total _ _ (drop_total names vals)), concat_map_map. apply map_flat_map.
+    - rewrite (wrap_map_total _ _ (by_without_total by_ names)), concat_map_map. apply map_flat_map.
+    - rewrite wrap_filter, concat_map_filter. apply filter_flat_map.
+  Qed.
+
+  Definition H_of (c : ctx) (s : stage V) : entry -> list entry :=
+    match s with
+    | SLabelFormat _ fs => fun e => [with_lbl V fpf e (fold_left sem_lfmt fs (lbl_of V e))]
+    | SUnwrap _ label => fun e =>
+        [let x := if String.eqb label entry_key then e_msg V e else lget (lbl_of V e) label in
+         if String.eqb x EmptyString then e else match pfloat x with Some f => set_val V e f | None => e end]
+    | SDrop _ names vals => fun e => [with_lbl V fpf e (filter (fun kv => negb (drop_hit (fst kv) (snd kv) names vals)) (lbl_of V e))]
+    | SByWithout _ by_ names => fun e => [with_lbl V fpf e (filter (fun kv => bw_keep by_ names (fst kv)) (lbl_of V e))]
+    | SLineFormat _ id => fun e => match tmpl id (lset (lbl_of V e) entry_key (e_msg V e)) with Some s => [set_msg V e s] | None => [] end
+    | _ => G_of c s
+    end.
+
+  Lemma sem_stage_flat c s r : flat_stage s = true -> sem_stage c s r = flat_map (H_of c s) r.
+  Proof.
+    destruct s; cbn [flat_stage simple_stage]; try discriminate; intros _; cbn [InternalEngine.sem_stage H_of G_of];
+      try apply filter_flat_map; try apply map_flat_map. reflexivity.
+  Qed.
+
+  Lemma compat_stage c s : flat_stage s = true -> compat (G_of c s) (H_of c s).
+  Proof.
+    destruct s; cbn [flat_stage simple_stage]; try discriminate; intros _; cbn [G_of H_of].
+    - (* line filter *) apply compat_filter. intros e e' He. destruct (erase_fields e e' He) as [_ [_ [Hm [_ Hr]]]].
+      unfold line_keep. now rewrite Hm, Hr.
+    - (* label filter *) apply compat_filter. intros e e' He. destruct (erase_fields e e' He) as [_ [Hl _]]. now rewrite Hl.
+    - (* label_format *) apply compat_map.
+      + intros e e' He [Hg1 [m Hm]]. destruct (erase_fields e e' He) as [Ht [Hl [Hs [Hv Hr]]]].
+        unfold label_format_g, label_format_f. rewrite Hm. unfold InternalEngine.erase, with_lbl, lbl_of. rewrite <- Hl, Hm.
+        cbn. rewrite lfmt_fold_eq, Ht, Hs, Hv, Hr. split; [reflexivity|]. split; [exact Hg1|eexists; reflexivity].
+      + intros e. unfold label_format_g, label_format_f. destruct (e_lbl V e); reflexivity.
+    - (* line_format *) intros e e' He. destruct (erase_fields e e' He) as [Ht [Hl [Hs [Hv Hr]]]]. unfold lf_one. split.
+      + intros [Hg1 [m Hm]]. unfold lbl_of. rewrite <- Hl, Hm, <- Hs. destruct (tmpl id _) as [x|]; cbn [map].
+        * split; [unfold InternalEngine.erase; cbn; now rewrite Ht, Hl, Hv, Hr|]. constructor; [|constructor].
+          split; [exact Hg1|exists m; exact Hm].
+        * split; [reflexivity|constructor].
+      + intros Hn. destruct (tmpl id _); constructor; [exact Hn|constructor].
+    - (* unwrap *) apply compat_map.
+      + intros e e' He [Hg1 [m Hm]]. destruct (erase_fields e e' He) as [Ht [Hl [Hs [Hv Hr]]]].
+        unfold unwrap_g, unwrap_f. rewrite Hg1. cbn [errk_eqb negb]. unfold olget, lbl_of. rewrite <- Hl, Hm, <- Hs.
+        set (x := if String.eqb label entry_key then e_msg V e else lget m label).
+        destruct (String.eqb x EmptyString); [split; [exact He|split; [exact Hg1|exists m; exact Hm]]|].
+        destruct (pfloat x) as [f|]; [|split; [exact He|split; [exact Hg1|exists m; exact Hm]]].
+        split; [unfold InternalEngine.erase; cbn; now rewrite Ht, Hl, Hs, Hr|split; [exact Hg1|exists m; exact Hm]].
+      + intros e. unfold unwrap_g, unwrap_f. destruct (negb _); [reflexivity|]. destruct (String.eqb _ EmptyString); [reflexivity|].
+        destruct (pfloat _); reflexivity.
+    - (* drop *) apply compat_map.
+      + intros e e' He [Hg1 [m Hm]]. destruct (erase_fields e e' He) as [Ht [Hl [Hs [Hv Hr]]]].
+        unfold drop_g, drop_f. rewrite Hm. unfold with_lbl, lbl_of. rewrite <- Hl, Hm.
+        set (p := fun kv : string * string => negb (drop_hit (fst kv) (snd kv) names vals)).
+        destruct (Nat.eqb_spec (List.length (filter p m)) (List.length m)) as [E|E].
+        * rewrite (filter_length_eq p m E). split; [unfold InternalEngine.erase; cbn; now rewrite Ht, Hm, Hs, Hv, Hr|].
+          split; [exact Hg1|exists m; exact Hm].
+        * split; [unfold InternalEngine.erase; cbn; now rewrite Ht, Hs, Hv, Hr|]. split; [exact Hg1|eexists; reflexivity].
+      + intros e. unfold drop_g, drop_f. destruct (e_lbl V e); [|reflexivity]. destruct (Nat.eqb _ _); reflexivity.
+    - (* by / without *) apply compat_map.
+      + intros e e' He [Hg1 [m Hm]]. destruct (erase_fields e e' He) as [Ht [Hl [Hs [Hv Hr]]]].
+        unfold by_without_g, by_without_f. rewrite Hm. unfold with_lbl, lbl_of. rewrite <- Hl, Hm.
+        split; [unfold InternalEngine.erase; cbn; now rewrite Ht, Hs, Hv, Hr|]. split; [exact Hg1|eexists; reflexivity].
+      + intros e. unfold by_without_g, by_without_f. destruct (e_lbl V e); reflexivity.
+    - (* comparison *) apply compat_filter. intros e e' He. destruct (erase_fields e e' He) as [_ [_ [_ [Hv _]]]].
+      unfold comparison_keep. now rewrite Hv.
+  Qed.
+
+  (* ---- limit ---- *)
+  Lemma Forall_firstn {A} (P : A -> Prop) n (l : list A) : Forall P l -> Forall P (firstn n l).
+  Proof. revert l. induction n as [|n IH]; intros [|x r] H; cbn; try constructor; inversion H; subst; auto. Qed.
+
+  Lemma sim_limit L l r : sim l r -> sim (sem_limit V L l) (sem_limit V L r).
+  Proof.
+    intros [d [t [-> [Hd [Ht He]]]]]. unfold sem_limit. destruct (L =? 0); [exists d, t; auto|].
+    rewrite firstn_app. exists (firstn (Z.to_nat L) d), (firstn (Z.to_nat L - List.length d) t).
+    split; [reflexivity|]. split; [now apply Forall_firstn|]. split; [now apply Forall_firstn|].
+    now rewrite <- !firstn_map, He.
+  Qed.
+
+  (* ---- one stage, then a chain ---- *)
+  Lemma sim_no_crash bs r : sim (List.concat bs) r -> has_crash V bs = false.
+  Proof.
+    intros [d [t [E [Hd [Ht _]]]]]. rewrite has_crash_concat, E, existsb_app. apply orb_false_iff. split.
+    - clear E. induction Hd as [|e d' [He _] _ IH]; [reflexivity|]. cbn [existsb]. unfold is_crash at 1. now rewrite He, IH.
+    - clear E. induction Ht as [|e t' [_ He] _ IH]; [reflexivity|]. cbn [existsb]. unfold is_crash at 1. rewrite IH.
+      destruct (e_err V e); try reflexivity. contradiction.
+  Qed.
+
+  Lemma sim_stage c s bs r : simple_stage V s = true -> 0 <= c_limit c ->
+    sim (List.concat bs) r -> sim (List.concat (run_stage c s bs)) (sem_stage c s r).
+  Proof.
+    intros Hs HL Hsim. destruct (flat_stage s) eqn:F.
+    - rewrite (run_stage_flat c s bs F), (sem_stage_flat c s r F). apply sim_flat_map; [now apply compat_stage|exact Hsim].
+    - destruct s; cbn [flat_stage simple_stage] in *; try discriminate.
+      cbn [InternalEngine.run_stage InternalEngine.sem_stage].
+      pose proof (limit_agrees c bs HL) as E. cbn [InternalEngine.run_stage] in E. rewrite E. now apply sim_limit.
+  Qed.
+
+  Lemma sim_chain c : 0 <= c_limit c -> forall ch, forallb (simple_stage V) ch = true ->
+    forall bs r, sim (List.concat bs) r ->
+      sim (List.concat (run_chain c ch bs)) (fold_left (fun x s => sem_stage c s x) ch r).
+  Proof.
+    intros HL. induction ch as [|s ch IH]; intros Hs bs r Hsim; [exact Hsim|].
+    cbn [forallb] in Hs. apply andb_true_iff in Hs. destruct Hs as [H1 H2].
+    unfold InternalEngine.run_chain. cbn [fold_left]. rewrite (sim_no_crash bs r Hsim).
+    apply (IH H2). now apply sim_stage.
+  Qed.
+
+  Lemma data_of_sim l r : sim l r -> map erase (data_of V l) = map erase r.
+  Proof.
+    intros [d [t [-> [Hd [Ht He]]]]]. unfold data_of. rewrite filter_app.
+    assert (E1 : filter (fun e => errk_eqb (e_err V e) ENone) d = d).
+    { clear He. induction Hd as [|e d' [Hx _] _ IH]; [reflexivity|]. cbn [filter]. now rewrite Hx, IH. }
+    assert (E2 : filter (fun e => errk_eqb (e_err V e) ENone) t = []).
+    { induction Ht as [|e t' [Hx _] _ IH]; [reflexivity|]. cbn [filter]. now rewrite (errk_eqb_none _ Hx), IH. }
+    now rewrite E1, E2, app_nil_r.
+  Qed.
+
+  Lemma sim_start rows t : Forall good rows -> Forall nondata t -> sim (rows ++ t) (data_of V (rows ++ t)).
+  Proof.
+    intros Hd Ht. exists rows, t. split; [reflexivity|]. split; [exact Hd|]. split; [exact Ht|].
+    f_equal. symmetry.
+    unfold data_of. rewrite filter_app.
+    assert (E1 : filter (fun e => errk_eqb (e_err V e) ENone) rows = rows).
+    { induction Hd as [|e d' [Hx _] _ IH]; [reflexivity|]. cbn [filter]. now rewrite Hx, IH. }
+    assert (E2 : filter (fun e => errk_eqb (e_err V e) ENone) t = []).
+    { induction Ht as [|e t' [Hx _] _ IH]; [reflexivity|]. cbn [filter]. now rewrite (errk_eqb_none _ Hx), IH. }
+    now rewrite E1, E2, app_nil_r.
+  Qed.
+
+  (* ---- agreement of a whole chain of simple stages ---- *)
+  Lemma chain_agrees c ch rows t bs :
+    0 <= c_limit c -> forallb (simple_stage V) ch = true ->
+    Forall good rows -> Forall nondata t -> List.concat bs = rows ++ t ->
+    map erase (data_of V (List.concat (run_chain c ch bs))) = map erase (sem_chain c ch (List.concat bs)).
+  Proof.
+    intros HL Hs Hd Ht E. apply data_of_sim. unfold InternalEngine.sem_chain.
+    apply (sim_chain c HL ch Hs). rewrite E. now apply sim_start.
+  Qed.
+
+  (* ---- a json / logfmt stage in front, every line decoding ---- *)
+  Definition parser_g (id : N) (e : entry) : entry := match parser_f V fpf parse id e with Ok e' => e' | Fail _ => e end.
+
+  Lemma parser_good id e : good e -> decodes V parse id e ->
+    parser_f V fpf parse id e = Ok (parser_g id e) /\ good (parser_g id e) /\ erase (parser_g id e) = erase (sem_parser V fpf parse id e).
+  Proof.
+    intros [He [m Hm]] Hdec. unfold parser_g, parser_f, sem_parser, decodes in *. rewrite He, Hm. cbn [errk_eqb negb].
+    destruct (parse id (e_msg V e)) as [kvs|]; [|contradiction]. split; [reflexivity|]. split.
+    - split; [exact He|eexists; reflexivity].
+    - reflexivity.
+  Qed.
+  Lemma parser_nondata id e : nondata e -> parser_f V fpf parse id e = Ok e.
+  Proof. intros [H _]. unfold parser_f. now rewrite (errk_eqb_none _ H). Qed.
+
+  Lemma parser_first c id rows t bs :
+    Forall good rows -> Forall (decodes V parse id) rows -> Forall nondata t -> List.concat bs = rows ++ t ->
+    sim (List.concat (run_stage c (SParser V id) bs)) (map (sem_parser V fpf parse id) rows).
+  Proof.
+    intros Hd Hdec Ht E. cbn [InternalEngine.run_stage].
+    assert (M : mapM (parser_f V fpf parse id) (rows ++ t) = Ok (map (parser_g id) rows ++ t)).
+    { rewrite mapM_app.
+      assert (M1 : mapM (parser_f V fpf parse id) rows = Ok (map (parser_g id) rows)).
+      { clear E. induction Hd as [|e r Hg _ IH]; [reflexivity|]. inversion Hdec; subst. cbn [mapM map].
+        destruct (parser_good id e Hg H1) as [P1 _]. now rewrite P1, IH. }
+      assert (M2 : mapM (parser_f V fpf parse id) t = Ok t).
+      { clear E. induction Ht as [|e r Hn _ IH]; [reflexivity|]. cbn [mapM]. now rewrite (parser_nondata id e Hn), IH. }
+      now rewrite M1, M2. }
+    pose proof (wrap_map_shape (parser_f V fpf parse id) bs) as S. rewrite E, M in S. rewrite S.
+    exists (map (parser_g id) rows), t. split; [reflexivity|]. split; [|split; [exact Ht|]].
+    - clear E M S. induction Hd as [|e r Hg _ IH]; [constructor|]. inversion Hdec; subst. cbn [map]. constructor; [|now apply IH].
+      exact (proj1 (proj2 (parser_good id e Hg H1))).
+    - clear E M S. induction Hd as [|e r Hg _ IH]; [reflexivity|]. inversion Hdec; subst. cbn [map]. f_equal; [|now apply IH].
+      exact (proj2 (proj2 (parser_good id e Hg H1))).
+  Qed.
+
+  Lemma chain_agrees_parser_first c id ch rows t bs :
+    0 <= c_limit c -> forallb (simple_stage V) ch = true ->
+    Forall good rows -> Forall (decodes V parse id) rows -> Forall nondata t -> List.concat bs = rows ++ t ->
+    map erase (data_of V (List.concat (run_chain c (SParser V id :: ch) bs))) =
+    map erase (sem_chain c (SParser V id :: ch) (List.concat bs)).
+  Proof.
+    intros HL Hs Hd Hdec Ht E. apply data_of_sim.
+    assert (S0 : sim (List.concat bs) (data_of V (List.concat bs))) by (rewrite E; now apply sim_start).
+    unfold InternalEngine.run_chain, InternalEngine.sem_chain. cbn [fold_left]. rewrite (sim_no_crash bs _ S0).
+    apply (sim_chain c HL ch Hs). cbn [InternalEngine.sem_stage].
+    assert (D : data_of V (List.concat bs) = rows).
+    { rewrite E. unfold data_of. rewrite filter_app.
+      assert (E1 : filter (fun e => errk_eqb (e_err V e) ENone) rows = rows).
+      { clear E S0. induction Hd as [|e d' [Hx _] _ IH]; [reflexivity|]. inversion Hdec; subst. cbn [filter]. now rewrite Hx, IH. }
+      assert (E2 : filter (fun e => errk_eqb (e_err V e) ENone) t = []).
+      { clear E S0. induction Ht as [|e t' [Hx _] _ IH]; [reflexivity|]. cbn [filter]. now rewrite (errk_eqb_none _ Hx), IH. }
+      now rewrite E1, E2, app_nil_r. }
+    rewrite D. now apply (parser_first c id rows t bs).
+  Qed.
+
+  Lemma data_of_rows rows t : Forall good rows -> Forall nondata t -> data_of V (rows ++ t) = rows.
+  Proof.
+    intros Hd Ht. unfold data_of. rewrite filter_app.
+    assert (E1 : filter (fun e => errk_eqb (e_err V e) ENone) rows = rows).
+    { induction Hd as [|e d' [Hx _] _ IH]; [reflexivity|]. cbn [filter]. now rewrite Hx, IH. }
+    assert (E2 : filter (fun e => errk_eqb (e_err V e) ENone) t = []).
+    { induction Ht as [|e t' [Hx _] _ IH]; [reflexivity|]. cbn [filter]. now rewrite (errk_eqb_none _ Hx), IH. }
+    now rewrite E1, E2, app_nil_r.
+  Qed.
+
+  Lemma stage_agrees c s rows t bs :
+    0 <= c_limit c -> simple_stage V s = true ->
+    Forall good rows -> Forall nondata t -> List.concat bs = rows ++ t ->
+    map erase (data_of V (List.concat (run_stage c s bs))) = map erase (sem_stage c s rows).
+  Proof.
+    intros HL Hs Hd Ht E. apply data_of_sim. apply sim_stage; [exact Hs|exact HL|].
+    rewrite E. exists rows, t. auto.
+  Qed.
 End PROOFS.
 
 (* ============================================================================================ *)
@@ -499,3 +831,4 @@ End HASH.
 Lemma hash_collision_witness : forall ch64 : string -> N,
   fingerprint ch64 [("a", "bc")]%string = fingerprint ch64 [("ab", "c")]%string.
 Proof. intros ch64. apply fingerprint_kv. reflexivity. Qed.
+
